@@ -26,6 +26,8 @@ type c12Outcome struct {
 	site     string
 	isErr    bool
 	value    string
+	err      error  // the error value itself, and how it read when it was returned: a later call must not change an
+	errText  string // error that an earlier call handed out
 }
 
 func (o c12Outcome) String() string {
@@ -65,7 +67,9 @@ func c12Call(inst *c12Instance, p c12Probe, arg any) c12Outcome {
 		return c12Outcome{panicked: true, site: site}
 	}
 	if err != nil {
-		return c12Outcome{isErr: true}
+		o := c12Outcome{isErr: true, err: err}
+		_, _, _, _ = wk.Guard(func() { o.errText = err.Error() })
+		return o
 	}
 	return c12Outcome{value: cmpx.Canon(out)}
 }
@@ -434,6 +438,17 @@ func runC12(c *wk.Ctx) {
 				if rep == 0 {
 					first = o
 					continue
+				}
+				if rep == 15 && first.err != nil {
+					// fifteen more calls later, the error that the first call returned still reads as it did
+					now := ""
+					_, _, _, _ = wk.Guard(func() { now = first.err.Error() })
+					c.Count("returned_errors_read_again_after_later_calls")
+					if now != first.errText {
+						c.Violation("C12:returned-error-changed-by-later-calls:"+p.op, fmt.Sprintf("the error returned by the first of 16 evaluations of %s (%s) read %q then and reads %q after the other evaluations: calls share and modify an error value", p.op, p.name, clipStr(first.errText, 300), clipStr(now, 300)),
+							map[string]any{"schema": clipStr(descr, 1200), "argument": clipStr(cmpx.Canon(p.arg), 600), "first": clipStr(first.errText, 600), "later": clipStr(now, 600)})
+						break
+					}
 				}
 				if o.String() != first.String() {
 					c.Violation("C12:not-deterministic:"+p.op, fmt.Sprintf("two evaluations of %s on the same schema and argument (%s) differ: %s vs %s", p.op, p.name, clipStr(first.String(), 200), clipStr(o.String(), 200)),
